@@ -110,7 +110,8 @@ def write_pptx(deck: dict) -> bytes:
         n = nslides - logical + 1
         rid = f"rId{logical}"
         prels.append((rid, f"{REL}/slide", f"slides/slide{n}.xml", False))
-        sldids += f'<p:sldId id="{255 + logical}" r:id="{rid}"/>'
+        # slide ids are identifiers, not positions: a deck whose slides were moved has them in any order
+        sldids += f'<p:sldId id="{256 + (logical * 5) % 7 + 7 * (logical // 7)}" r:id="{rid}"/>'
         srels = [("rIdL", f"{REL}/slideLayout", "../slideLayouts/slideLayout1.xml", False)]
         shapes = ""
         k = 0
